@@ -65,6 +65,12 @@ func (c06) Gen(tier string, seed int64, emit0 func([]Ev)) {
 		if ns < 0 {
 			pmt = limitPMT(r, -ns-1, []int{1021, 1021, 1020, 1019, 1000 + r.Intn(22)}[r.Intn(5)])
 		}
+		if ns > 0 && si%4 == 1 {
+			// the section ends in 0xFF bytes and its CRC_32 is all ones, all zeros or stuffing- / sync-like: section bytes, not stuffing
+			if q, ok := ffTailPMT(r, pmt); ok {
+				pmt = q
+			}
+		}
 		sec := pmtSection(pmt)
 		for _, ptr := range []int{0, 1, 5, 100, 182} {
 			if !thorough && (si+ptr)%2 == 1 && ptr != 0 {
